@@ -386,6 +386,7 @@ impl<'a> Enc<'a> {
             A::LineNumbers(..) => "LineNumberTable".into(),
             A::LocalVars(..) => "LocalVariableTable".into(),
             A::LocalVarTypes(..) => "LocalVariableTypeTable".into(),
+            A::StackMapTable if self.layout.frames == super::FrameEnc::Cldc => "StackMap".into(),
             A::StackMapTable => "StackMapTable".into(),
             A::Unknown(i) => unknown_list[*i].name.clone(),
         };
